@@ -112,6 +112,11 @@ def _map_query_error(error: duckdb.Error, sql_query: str) -> Exception:
         value = msg.split("to Integer: ", 1)[-1].split("\n", 1)[0] if "to Integer: " in msg else "unknown"
         return RunTimeError("2-1-5-1", value=value, type_1="String", type_2="Integer")
 
+    # Custom VTL macro errors: String that is not a duration code → Duration
+    if "cannot cast string to duration" in msg_lower:
+        value = msg.split("to Duration: ", 1)[-1].split("\n", 1)[0] if "to Duration: " in msg else "unknown"
+        return RunTimeError("2-1-5-1", value=value, type_1="String", type_2="Duration")
+
     # Custom VTL macro errors: TimeInterval → Date with different dates
     if "cannot cast timeinterval to date" in msg_lower:
         value = msg.split(": ", 1)[-1] if ": " in msg else "unknown"
